@@ -225,6 +225,9 @@ func mutating(c crashkit.Call, d crashDir, tempfd *int) string {
 }
 
 func runCrash(cc crashCase) {
+	if wedged >= 3 {
+		return
+	}
 	fail := func(id, sig, msg string, k int) {
 		c := cc
 		c.K = k
@@ -314,7 +317,7 @@ func runCrash(cc crashCase) {
 	}
 	if cc.Kind == "KE" || (cc.K < 0 && ioErrBudget > 0) {
 		ioErrBudget--
-		runIOErrors(cc, rec, win, oldc, newc, dirExisted)
+		runIOErrors(cc, rec, win, oldc, newc, dirExisted, label, dm, nchain, chunks, oldTok, oldMode)
 		if cc.Kind == "KE" {
 			return
 		}
@@ -398,7 +401,7 @@ func runCrash(cc crashCase) {
 // not modelled; what is checked (oracle only) is "never damages the config file":
 // an operation that reports an error leaves the complete old file and no ingest
 // file behind; one that reports success has written the complete new file.
-func runIOErrors(cc crashCase, rec *crashkit.Trace, win []int, oldc, newc []byte, dirExisted bool) {
+func runIOErrors(cc crashCase, rec *crashkit.Trace, win []int, oldc, newc []byte, dirExisted bool, label map[int]string, dm string, nchain int, chunks []string, oldTok string, oldMode int) {
 	for k := 0; k < len(win); k++ {
 		name := rec.Calls[win[k]].Name
 		switch name {
@@ -426,6 +429,39 @@ func runIOErrors(cc crashCase, rec *crashkit.Trace, win []int, oldc, newc []byte
 		c2.Kind = "KE"
 		fail := func(sig, msg string) { run.OracleFail(id, sig, msg, c2) }
 		failed := res.Exit == 5 || res.Exit == 6
+		// ---- correspondence with the model's error paths (failed_save_steps) ----
+		if res.Exit == 0 || failed {
+			mk, wr := 0, 0
+			for _, i := range win[:k] {
+				if label[i] == "mkdir" {
+					mk++
+				}
+				if strings.HasPrefix(label[i], "write:") {
+					wr++
+				}
+			}
+			phase, j := "OK", 0
+			if failed {
+				switch l := label[win[k]]; {
+				case l == "creat":
+					phase = "CREATE"
+				case l == "chmod":
+					phase = "CHMOD"
+				case strings.HasPrefix(l, "write:"):
+					phase, j = "WRITE", wr
+				case l == "close":
+					phase = "CLOSE"
+				case l == "rename":
+					phase = "RENAME"
+				default: // a mkdir, or a stat inside MkdirAll
+					phase, j = "MKDIR", mk
+				}
+			}
+			run.Case(id, fmt.Sprintf("KE %s %s %d %s %d %d %s", dm, oldTok, oldMode, phase, j, len(chunks), strings.Join(chunks, " ")),
+				fmt.Sprintf("DIR %s CFG %s TMP %s", obs.dirMode, obs.cfg, obs.tmp))
+			run.Count("ioerr:model-judged-" + phase)
+			run.Evaluations--
+		}
 		if res.Exit == 6 {
 			fail("ioerr-failed-op-visible", fmt.Sprintf("%s failing with %s made %s(%q) return an error, yet Get on the same store no longer answers as before: the failed operation stays in memory (and reaches the file with the next save)", name, errno, cc.Op.Op, cc.Op.Addr))
 		}
